@@ -153,7 +153,7 @@ def run(ctx):
 LEGACY_T0 = __import__("datetime").datetime(2024, 1, 1, 12, 0, 0)
 
 
-def legacy_run(program, uid, script, S, H, monos, want_waits=False):
+def legacy_run(program, uid, script, S, H, monos, want_waits=False, hold_off=None):
     """One of the two legacy loops driven by a scripted queue.
     script items: ('note', any-change matched, watched changed, expression value) | ('timeout',); monos[i] is the monotonic clock while item i is processed.
     Result: set of (how the scenario ended, ((phase, arguments of the run / returned dictionary), ...))."""
@@ -196,6 +196,8 @@ def legacy_run(program, uid, script, S, H, monos, want_waits=False):
         return [(cfg.hset("$runs", ListV(lst.items + (ListV((Const(phase(cfg)), a[1] if len(a) > 1 else NONE), "tuple"),))), Const(True))]
 
     expr = lambda i, n, a, k, c, o: [(c, Const(cur(c)[3]))]  # noqa: E731
+    has_guard = any(len(it) > 4 for it in script)
+    guard = lambda i, n, a, k, c, o: [(c, Const(cur(c)[4] if len(cur(c)) > 4 else True))]  # noqa: E731
     def wait_for(i, n, a, k, c, o):
         tmo = k.get("timeout") if "timeout" in k else (a[1] if len(a) > 1 else Const("?"))
         c = c.hset("$timeouts", ListV(c.heap.get("$timeouts", ListV(())).items + (tmo,)))
@@ -210,6 +212,7 @@ def legacy_run(program, uid, script, S, H, monos, want_waits=False):
             "STATE_RE.match": lambda i, n, a, k, c, o: [(c, NONE)], "Function.install_ast_funcs": lambda i, n, a, k, c, o: [(c, NONE)],
             "State.notify_add": lambda i, n, a, k, c, o: [(c, Const(True))], "State.notify_del": lambda i, n, a, k, c, o: [(c, NONE)],
             "State.notify_var_get": lambda i, n, a, k, c, o: [(c, DictV([]))], "asyncio.Queue": lambda i, n, a, k, c, o: [(c, ObjV("q", "Queue"))],
+            "self.active_expr.eval": guard, "self.active_expr.get_names": lambda i, n, a, k, c, o: [(c, ListV((), "set"))],
             "self.call_action": action, "TrigTime.timer_trigger_next": lambda i, n, a, k, c, o: [(c, ListV((NONE, NONE), "tuple"))]}
     pol = FlowPolicy(program, may_raise_all=False, cancel=False, summaries=summ)
     pol.loop_unroll = len(script) + 3
@@ -223,8 +226,10 @@ def legacy_run(program, uid, script, S, H, monos, want_waits=False):
         heap = {"self.state_trigger": ListV([Const("x")]), "self.state_user_watch": NONE, "self.state_trig_eval": ObjV("expr", "AstEval"), "self.state_trig_ident": ListV((Const("d.e"),), "set"),
                 "self.state_trig_ident_any": ListV((), "set"), "self.active_expr": NONE, "self.event_trigger": NONE, "self.mqtt_trigger": NONE, "self.webhook_trigger": NONE,
                 "self.state_check_now": Const(False), "self.state_hold_false": Const(H), "self.state_hold": Const(S), "self.run_on_startup": Const(False), "self.time_trigger": NONE,
-                "self.have_trigger": Const(True), "self.time_active": NONE, "self.time_active_hold_off": NONE, "self.notify_q": ObjV("q", "Queue"),
+                "self.have_trigger": Const(True), "self.time_active": NONE, "self.time_active_hold_off": Const(hold_off), "self.notify_q": ObjV("q", "Queue"),
                 "self.state_trigger_kwargs": DictV(()), "self.name": Const("file.x.f")}
+        if has_guard:
+            heap.update({"self.active_expr": ObjV("aexpr", "AstEval"), "self.state_active_ident": ListV((), "set")})
     out = run_flow(program, uid, pol, args=args, heap=heap)
     res = set()
     waits = set()
